@@ -25,7 +25,13 @@ CONFIG = {
             "between) x 8 record types x 7 downstream codecs x 1 (quick) / 3 (thorough) domains, 5 byte patterns incl. "
             "escaping stress bytes; (2) lengths 512/1024 (all types), 4096/8192 (NULL, TXT; thorough: all), around 65530 "
             "for NULL/PRIVATE; (3) all 7 response kinds x 14 BadErrors + custom/empty error texts x 8 types x 7 codecs, "
-            "plus success forms with enumerated field boundaries; (4) 600/20000 random responses over random domains. "
+            "plus success forms with enumerated field boundaries; (4) 600/20000 random responses over random domains; "
+            "(5) escaping x chunk boundaries: for every splitting record type (TXT strings 253 and records of 250 strings, "
+            "A 3, AAAA 14, CNAME/MX labels 63 and records GetLongestDataString, SRV label, NULL/PRIVATE 65530) and every "
+            "codec, streams ending at boundary-1/+0/+1/+window for the first three boundaries with every special byte "
+            "(backslash, quote, NUL, 0x1f, 0x7f, 0xff, dot, semicolon) and escape look-alikes (\\123, \\\\, \\\", \\.) at "
+            "every stream offset boundary-4..+4 (thorough -8..+8); Raw places them directly, Base85/91/128 are searched "
+            "through the real encoder until the encoded stream has a backslash/quote/high/low/dot byte at that offset. "
             "non-trivial = client decoded the same response; distinct = distinct op line. Monitor: decoded == sent or an "
             "error was reported; silent difference and panic fail",
     "trusted_base": COMMON_TB + ["models SA.Model.DnsWire / DnsResp hand-written; tied by per-op comparison of outcome class, "
